@@ -482,6 +482,22 @@ def DropSafe {A : Agg} (e : Ent A) : List (HOp A) → Prop
       | .drop i => othersForgot e i
       | .op _ => True) ∧ DropSafe (stepH e o) rest
 
+/-- Decidable form of `othersForgot`: every cache / history-cache entry of the entity belongs to
+store object `i`. -/
+def othersForgotB {A : Agg} (e : Ent A) (i : Nat) : Bool :=
+  e.cache.all (fun p => p.1 == i) && e.hcache.all (fun p => p.1 == i)
+
+/-- **krill's usage assumption as a decidable predicate on histories**: run the history on the
+model and test, at every `drop_aggregate`, that no other store object remembers the entity.
+(Everything else – snapshots, failed writes, cache drops, any number of store objects reading and
+writing – is unrestricted.) -/
+def dropSafeB {A : Agg} (e : Ent A) : List (HOp A) → Bool
+  | [] => true
+  | o :: rest =>
+    (match o with
+      | .drop i => othersForgotB e i
+      | .op _ => true) && dropSafeB (stepH e o) rest
+
 /-! ### loading without the help of cache and snapshot -/
 
 /-- What a brand-new store sees (no cache), e.g. after a restart. -/
